@@ -87,7 +87,16 @@ func corrupt(t *tape.Tape, img []byte, n int) ([]byte, []string) {
 	var kinds []string
 	for i := 0; i < n && len(out) > 0; i++ {
 		l := fmt.Sprintf("c%d", i)
-		switch t.Weighted(l+".kind", 3, 2, 2, 2, 2, 2, 6, 5, 2, 3, 3, 3, 2, 3, 3) {
+		switch t.Weighted(l+".kind", 3, 2, 2, 2, 2, 2, 6, 5, 2, 3, 3, 3, 2, 3, 3, 2) {
+		case 15: // the number in an object header "N G obj" at the edges of the number space
+			ms := objPat.FindAllSubmatchIndex(out, -1)
+			if len(ms) == 0 {
+				continue
+			}
+			m := ms[posIn(t, l+".m", len(ms))]
+			repl := tape.Pick(t, l+".num", "16777215", "16777216", "16777217", "2147483647", "2147483648", "4294967295", "4294967296", "0", "99999999999999999999")
+			out = append(out[:m[2]:m[2]], append([]byte(repl), out[m[3]:]...)...)
+			kinds = append(kinds, "object-number edit")
 		case 14: // token-level damage to an indirect reference "N G R"
 			ms := refTokenPat.FindAllSubmatchIndex(out, -1)
 			if len(ms) == 0 {
